@@ -205,7 +205,9 @@ func c05Explore(src *choice.Src) *core.Result {
 	}
 	res.Steps = t.stats.lstats + t.stats.opens + t.stats.reads + w.writes
 	if after := fmt.Sprint(pathsOfList(list)); after != beforeCreate {
-		res.Fail("C05", "caller-list-untouched", "the caller's file list was modified", "before %s after %s", beforeCreate, after)
+		// not a violation by itself (the property does not promise it); recorded because it explains later mismatches
+		res.Probes["caller-list-modified"]++
+		res.Logf("note: the caller's file list was modified: before %s after %s", beforeCreate, after)
 	}
 	d := delivered()
 	for k, v := range d {
